@@ -34,7 +34,8 @@ AAdd(i, ext, cs, mg, via) ==
   /\ hist' = Append(hist, [k |-> "add", i |-> i, rec |-> ext, cs |-> cs, mg |-> mg, via |-> via])
   /\ last' = r.out
   /\ sigs' = Append(sigs, <<"add", r.out[1], IF Cardinality(MatchIdx(convs[i], ext, cs)) > 1 THEN 2 ELSE Cardinality(MatchIdx(convs[i], ext, cs)),
-                            cs, mg, MatchKinds(convs[i], ext, cs)>>)
+                            cs, mg, MatchKinds(convs[i], ext, cs),
+                            \E k \in MatchIdx(convs[i], ext, cs) : ~(AllP(ext) \subseteq AllP(convs[i].recs[k]) /\ AllU(ext) \subseteq AllU(convs[i].recs[k]))>>)
   /\ convs' = [convs EXCEPT ![i] = r.conv]
 
 \* chain([convs[i] : i in is], case_sensitive=cs)
